@@ -338,6 +338,64 @@ func decorate(r *hx.Rng, s *gq.SchemaDesc, maxLayers int) {
 			}
 		}
 	}
+	// user fields named like the meta fields (the name only has to match the identifier syntax, NewSchema accepts
+	// them): `__typename` on objects and on interfaces (mirrored on the implementers), `__type` / `__schema` on the
+	// query root, with and without an argument called `name`. Introspection lists them as ordinary fields; at execution
+	// the meta fields win at every position.
+	if r.Chance(1, 3) {
+		impostor := func() gq.FieldDesc {
+			f := gq.FieldDesc{Name: "__typename", Type: r.Pick([]string{"String", "String!", "Int", "[String]"}), Desc: pickDesc(r)}
+			if r.Chance(1, 3) {
+				f.Args = []gq.ArgDesc{{Name: "name", Type: "String"}}
+			}
+			return f
+		}
+		theImpostor := impostor() // one declaration per schema: an object may implement several of the interfaces
+		for i := range s.Types {
+			t := &s.Types[i]
+			if (t.Kind != "OBJECT" && t.Kind != "INTERFACE") || !r.Chance(1, 2) {
+				continue
+			}
+			has := false
+			for _, f := range t.Fields {
+				has = has || f.Name == "__typename"
+			}
+			if has {
+				continue
+			}
+			f := theImpostor
+			t.Fields = append(t.Fields, f)
+			if t.Kind == "INTERFACE" {
+				for k := range s.Types {
+					o := &s.Types[k]
+					if o.Kind == "OBJECT" && contains(o.Interfaces, t.Name) {
+						kept := []gq.FieldDesc{}
+						for _, of := range o.Fields {
+							if of.Name != "__typename" {
+								kept = append(kept, of)
+							}
+						}
+						o.Fields = append(kept, f)
+					}
+				}
+			}
+		}
+		if q := s.Type(s.Query); q != nil {
+			for _, n := range []string{"__type", "__schema"} {
+				if !r.Chance(2, 3) {
+					continue
+				}
+				f := gq.FieldDesc{Name: n, Type: r.Pick(append([]string{"String", "String", "Int!"}, outs...)), Desc: pickDesc(r)}
+				switch r.Intn(3) {
+				case 0:
+					f.Args = []gq.ArgDesc{{Name: "name", Type: "String!"}}
+				case 1:
+					f.Args = []gq.ArgDesc{{Name: "name", Type: "Int"}, {Name: "other", Type: "Boolean", HasDef: true, Default: true}}
+				}
+				q.Fields = append(q.Fields, f)
+			}
+		}
+	}
 	// an object type nothing refers to (only SchemaConfig.Types / AppendType can bring it in), implementing an interface
 	if r.Chance(1, 2) {
 		o := gq.TypeDesc{Kind: "OBJECT", Name: "Lonely", Desc: pickDesc(r), IsTypeOf: true}
@@ -456,6 +514,19 @@ func decorate(r *hx.Rng, s *gq.SchemaDesc, maxLayers int) {
 	}
 	if r.Chance(1, 2) { // (c) directive arguments
 		s.Directives = append(s.Directives, gq.DirectiveDesc{Name: "onlyarg", Locations: []string{"FIELD", "QUERY"}, Args: soleArgs("Do", r.Chance(1, 2)), Desc: pickDesc(r)})
+	}
+	// objects that took the fields of several interfaces may have taken `__typename` more than once
+	for i := range s.Types {
+		t := &s.Types[i]
+		seen := map[string]bool{}
+		kept := t.Fields[:0:0]
+		for _, f := range t.Fields {
+			if !seen[f.Name] {
+				kept = append(kept, f)
+			}
+			seen[f.Name] = true
+		}
+		t.Fields = kept
 	}
 	// subscription root
 	if r.Chance(1, 4) {
